@@ -4,10 +4,10 @@
 //   floats: every lattice double v (|v| < 2^31) at every precision q = 0..9: modp_dtoa(v, q) / Field<fp_type>::print
 //           is the correctly rounded decimal with at most q fraction digits; fast_atof(text) / Field<fp_type>(text)
 //           is the double nearest to the decimal the text denotes.
-// part=int   (variant plain for the big sweep; variant san + fork=1 for a small set so that UB is seen too)
+// part=int   (variant plain for the big sweep; variant san + guard=1 for a small set so that UB is seen too)
 //   space : magnitude blocks of `block` (4096) values, both signs, |v| < 2^intbits (intbits=31: all 2^32 values incl. INT_MIN);
-//           for intbits < 31 additionally an edge set: 2^e+d, 10^e+d (|d|<=2), both signs, 67 values at each end of
-//           the range, multiples of 65521 over the whole range.
+//           for intbits < 31 additionally an edge set: 2^e+d, k*10^e+d (|d| <= edged, k <= edgek), both signs, edgeend+1
+//           values at each end of the range, multiples of 65521 over the whole range (unless nostride).
 //   oracle: std::to_string(v) for the text; parse(text) == v.
 // part=float (variant san)
 //   space : F4 specials; F1 N*10^-p and (N+1/2)*10^-p for N <= K, p = 0..9; F2 the same around W*10^p for anchor
@@ -20,13 +20,13 @@
 //           parse: bit-equal to glibc strtod(text).  (A decimal with <= 9 fraction digits and integer part < 2^31 is
 //           never exactly halfway between two doubles: if it is dyadic at all it has <= 40 significant bits and is
 //           itself a double.  So "within half an ulp" <=> "equals the correctly rounded strtod result".)
-//   Values above INT_MAX make the unchanged modp_dtoa overflow a signed int (UBSan abort): those cases run the fix8
-//   calls in a forked child and the parent judges what came back through a pipe.
+//   Values above INT_MAX make the unchanged modp_dtoa overflow a signed int (fatal UBSan report): with guard=1 those
+//   cases run in a forked worker (below).  only=top restricts the lattice to the neighbourhood of 2^31 (run in the plain
+//   variant with large bounds; the san part keeps that neighbourhood small because every fatal report costs a fork).
 #include <fix8/f8includes.hpp>
 #include <cfloat>
 #include <cmath>
 #include <climits>
-#include <unordered_set>
 #include <sys/wait.h>
 #include "vh.hpp"
 using namespace FIX8;
@@ -38,7 +38,7 @@ extern "C" const char *__asan_default_options() { return "detect_leaks=0:quarant
 
 typedef std::vector<std::string> Tags;
 static vh::Run *RP;
-static bool use_fork = false;
+static bool use_guard = false;
 
 //----------------------------------------------------------------------------------------------------------------
 // cheap counting of violation classes that can have 2^31 members: first 3 go through R.viol, the rest are counted
@@ -56,10 +56,14 @@ template<typename F> static void bulk_viol(int cls, const char *clause, const ch
 static void bulk_flush() { for (auto& b : bulk) if (b.deferred) RP->counters[b.key] += b.deferred; }
 
 //----------------------------------------------------------------------------------------------------------------
-// The fix8 calls of crash-prone cases run in a forked worker process: the parent sends a request, the worker sends one
-// observation record per checkpoint (so what was observed before a fatal sanitizer report is still judged) and an end
-// marker.  A worker that dies is reaped, its sanitizer report normalised into `msg`, and the next request starts a new one.
-// (Forking an ASan process costs ~20 ms, hence one worker for many cases rather than one fork per case.)
+// Crash-prone cases (the unchanged tree has undefined behaviour on negative integer text and on doubles above INT_MAX,
+// and the san variant is built with -fno-sanitize-recover) run their fix8 calls in a forked worker process: the parent
+// sends a request, the worker sends one observation record per checkpoint (so what was observed before a fatal sanitizer
+// report is still judged) and an end marker.  A worker that dies is reaped, the first line of its sanitizer report is
+// normalised into `msg`, and the next request starts a new worker.  Forking an ASan process is expensive (~0.1 s here),
+// so one worker serves many cases and the registry keeps the crash-prone sets under the sanitizers small; the full
+// sets run in the plain variant.  (Catching the report in-process is not possible: libubsan calls Die() with its
+// report lock held.)
 static std::string death_reason(const std::string& err, int st)
 {
 	size_t p;	// normalise like the driver does: kind of sanitizer report, numbers replaced
@@ -105,7 +109,7 @@ template<typename Req, typename Obs> struct Worker {
 		close(wfd); close(rfd); close(efd);
 		int st = 0; waitpid(pid, &st, 0); pid = -1;
 		msg = death_reason(err, st);
-		if (RP->verbose()) fprintf(stderr, "worker died: %s\n%s\n", msg.c_str(), err.substr(0, 1500).c_str());
+		if (RP->verbose()) fprintf(stderr, "worker died: %s\n%s\n", msg.c_str(), err.substr(0, 3000).c_str());
 		return false;
 	}
 	void stop() { if (pid > 0) { close(wfd); close(rfd); close(efd); int st; waitpid(pid, &st, 0); pid = -1; } }
@@ -204,7 +208,7 @@ static inline void int_case(long long vv, bool ext)
 	const int v = (int)vv;
 	const std::string ref = std::to_string(v);
 	IntObs o;
-	if (use_fork) {
+	if (use_guard) {
 		std::string msg; int stages = 0; memset(&o, 0, sizeof o);
 		const IntReq rq = { v, ext };
 		const bool alive = int_worker.call(rq, msg, [](const IntReq& r, IntObs& oo, auto&& cp) { observe_int(r.v, std::to_string(r.v).c_str(), r.ext, oo, cp); },
@@ -248,10 +252,11 @@ static int run_int(vh::Run& R)
 	} else {
 		std::set<long long> edges;
 		auto add = [&](long long x) { if (x >= INT_MIN && x <= INT_MAX && (x <= -lim || x >= lim)) edges.insert(x); };
-		for (int e = 0; e <= 31; ++e) for (int d = -2; d <= 2; ++d) { add((1LL << e) + d); add(-(1LL << e) + d); }
+		const int ED = (int)R.args.num("edged", 2), EK = (int)R.args.num("edgek", 9), EE = (int)R.args.num("edgeend", 66);
+		for (int e = 0; e <= 31; ++e) for (int d = -ED; d <= ED; ++d) { add((1LL << e) + d); add(-(1LL << e) + d); }
 		long long p10 = 1;
-		for (int e = 0; e <= 9; ++e, p10 *= 10) for (int d = -2; d <= 2; ++d) { add(p10 + d); add(-p10 + d); for (int k = 2; k <= 9; ++k) { add(k * p10 + d); add(-k * p10 + d); } }
-		for (int d = 0; d <= 66; ++d) { add((long long)INT_MIN + d); add((long long)INT_MAX - d); }
+		for (int e = 0; e <= 9; ++e, p10 *= 10) for (int d = -ED; d <= ED; ++d) { add(p10 + d); add(-p10 + d); for (int k = 2; k <= EK; ++k) { add(k * p10 + d); add(-k * p10 + d); } }
+		for (int d = 0; d <= EE; ++d) { add((long long)INT_MIN + d); add((long long)INT_MAX - d); }
 		if (!R.args.num("nostride", 0)) for (long long x = -32775LL * 65521; x <= INT_MAX; x += 65521) add(x);
 		size_t i = 0;
 		for (auto it = edges.begin(); it != edges.end() && !R.out_of_time(); ++id) {
@@ -266,7 +271,7 @@ static int run_int(vh::Run& R)
 		}
 	}
 	bulk_flush();
-	int_worker.stop(); if (use_fork) R.counters["worker_processes_started"] = int_worker.forks;
+	int_worker.stop(); if (use_guard) R.counters["worker_processes_started"] = int_worker.forks;
 	R.finish(true);
 	return 0;
 }
@@ -488,7 +493,7 @@ static void flt_value(double v, int qlo, int qhi, long long idbase)
 {
 	char rb[64];
 	auto announce = [&](int q) { snprintf(rb, sizeof rb, "f:%016llx:%d", (unsigned long long)bits_of(v), q); RP->begin_case(rb, "", idbase + q); };
-	if (!(fabs(v) > 2147483647.0 && use_fork)) {
+	if (!(fabs(v) > 2147483647.0 && use_guard)) {
 		for (int q = qlo; q <= qhi; ++q) { announce(q); FltObs o; observe_flt(v, q, o, no_checkpoint); judge_flt(v, q, o, 3, "", rb); }
 		return;
 	}
@@ -529,7 +534,18 @@ static int run_float(vh::Run& R)
 		flt_value(of_bits(b), q, q, -q);
 		flush_outcomes(); R.finish(); return R.violations ? 1 : 0;
 	}
-	std::unordered_set<uint64_t> seen;
+	// exact de-duplication: open-addressing set of bit patterns (compact: a forked worker copies this process' page tables)
+	struct Seen {
+		std::vector<uint64_t> tab; size_t n = 0; bool zero = false;
+		Seen() : tab(1 << 16, 0) {}
+		static uint64_t mix(uint64_t x) { x ^= x >> 30; x *= 0xbf58476d1ce4e5b9ULL; x ^= x >> 27; x *= 0x94d049bb133111ebULL; return x ^ (x >> 31); }
+		bool insert(uint64_t b)	// true = new
+		{
+			if (!b) { const bool r = !zero; zero = true; return r; }
+			if ((n + 1) * 2 > tab.size()) { std::vector<uint64_t> old(tab.size() * 2, 0); old.swap(tab); n = 0; for (uint64_t x : old) if (x) insert(x); }
+			for (size_t i = mix(b) >> 7 & (tab.size() - 1);; i = (i + 1) & (tab.size() - 1)) { if (tab[i] == b) return false; if (!tab[i]) { tab[i] = b; ++n; return true; } }
+		}
+	} seen;
 	long long vi = 0;		// running index of generated values (identical in every shard)
 	bool stop = false;
 	long long nsample = 0;
@@ -537,8 +553,8 @@ static int run_float(vh::Run& R)
 		const long long my = vi++;
 		if (stop || !(fabs(v) < 2147483648.0)) return;
 		const uint64_t b = bits_of(v);
-		if ((b * 0x9E3779B97F4A7C15ULL >> 33) % R.shard_n != R.shard_k) return;
-		if (!seen.insert(b).second) { ++R.counters["duplicate_lattice_points_skipped"]; return; }
+		if (Seen::mix(b) % R.shard_n != R.shard_k) return;
+		if (!seen.insert(b)) { ++R.counters["duplicate_lattice_points_skipped"]; return; }
 		if (my * 10 + 9 >= R.from) flt_value(v, (int)std::max(0LL, R.from - my * 10), 9, my * 10);
 		if (what && nsample < 3 && my * 10 >= R.from) { char rb[64], ds[160]; snprintf(rb, sizeof rb, "f:%016llx:2", (unsigned long long)b); snprintf(ds, sizeof ds, "%s: %.17g at precision 2 (and every other precision 0..9)", what, v); R.sample(rb, ds); ++nsample; }
 		if (R.out_of_time()) stop = true;
@@ -552,16 +568,17 @@ static int run_float(vh::Run& R)
 	// F4: specials
 	const double specials[] = { 0.0, 1.0, 0.5, 0.1, 0.05, 0.005, 0.95, 0.995, 0.9999999995, 0.99999999949, 1e-9, 5e-10, 4.9e-10, 1e-10, 1e-300, DBL_MIN, 4.9406564584124654e-324,
 		2147483647.0, 2147483646.5, 2147483647.5, 2147483647.4999995, 2147483647.9999995, 1073741824.0, 4294967295.0 / 2, 999999.995, 1000000.0, 123456789.123456789, 0.3, 2.675, 1.005, 8.5, 9.5, 99.5, 0.45, 0.55 };
-	for (double s : specials) emit(s, s == 0.95 ? "special value" : nullptr);
+	const bool only_top = R.args.get("only") == "top";	// just the neighbourhood of 2^31
+	for (double s : specials) if (!only_top || s > 2147483645.0) emit(s, s == 0.95 ? "special value" : nullptr);
 	// F1: N * 10^-p and (N + 1/2) * 10^-p, smallest N first
-	for (long long N = 0; N <= K && !stop; ++N)
+	for (long long N = 0; N <= K && !stop && !only_top; ++N)
 		for (int p = 0; p <= 9; ++p)
 			for (int half = 0; half < 2; ++half)
 				emit(dec(N, p, half), (N == 1995 && p == 3 && half) ? "(N+1/2)*10^-p lattice point" : nullptr);
 	// F2: the same around anchor integers W:  (W * 10^p + d [+ 1/2]) * 10^-p
 	const long long anchors[] = { 1, 9, 10, 99, 100, 999, 1000, 65536, 999999, 1000000, 16777216, 999999999, 1000000000, 2147483646, 2147483647, 2147483648LL };
 	for (long long W : anchors)
-		for (int p = 0; p <= 9 && !stop; ++p) {
+		for (int p = 0; p <= 9 && !stop && (!only_top || W >= 2147483646); ++p) {
 			const long long j = W >= 2147483646 ? JTOP : J;
 			const unsigned long long C = (unsigned long long)W * (unsigned long long)P10[p];
 			for (long long d = -j; d <= j; ++d) {
@@ -570,18 +587,18 @@ static int run_float(vh::Run& R)
 			}
 		}
 	// F3: exact binary fractions n / 2^k (every exact tie at precision k-1 is one of these), and W + n / 2^k
-	for (int k = 0; k <= KB && !stop; ++k)
+	for (int k = 0; k <= KB && !stop && !only_top; ++k)
 		for (long long n = 1; n <= NB; n += (k ? 2 : 1))
 			emit(ldexp((double)n, -k), (k == 3 && n == 5) ? "exact binary fraction n/2^k" : nullptr);
 	for (long long W : anchors) {
-		if (W == 2147483648LL) continue;
+		if (W == 2147483648LL || (only_top && W < 2147483646)) continue;
 		const int kb = W >= 2147483646 ? KBTOP : KB;
 		for (int k = 1; k <= kb && !stop; ++k)
 			for (long long n = 1; n < (1LL << k); n += 2)
 				emit((double)W + ldexp((double)n, -k));
 	}
 	R.counters["lattice_values_generated"] = (R.shard_k == 0) ? vi : 0;
-	flt_worker.stop(); if (use_fork) R.counters["worker_processes_started"] = flt_worker.forks;
+	flt_worker.stop(); if (use_guard) R.counters["worker_processes_started"] = flt_worker.forks;
 	flush_outcomes();
 	R.finish(!stop);
 	return 0;
@@ -590,14 +607,12 @@ static int run_float(vh::Run& R)
 int main(int argc, char **argv)
 {
 	vh::Run R(argc, argv); RP = &R;
-	use_fork = R.args.num("fork", 0) != 0;
-	// Symbolising a sanitizer stack trace costs ~0.2 s per dying child; the sweep only needs the report's first line.
+	use_guard = R.args.num("guard", 0) != 0;
+	// Symbolising a sanitizer stack trace costs ~0.2 s per report; the sweep only needs the report's first line.
 	// (Replays keep the driver's options and show the full trace.)
-	if (use_fork && !R.single && !getenv("C08_REEXEC")) {
+	if (use_guard && !R.single && !getenv("C08_REEXEC")) {
 		setenv("C08_REEXEC", "1", 1);
 		setenv("UBSAN_OPTIONS", "print_stacktrace=0:halt_on_error=1", 1);
-		std::string a = getenv("ASAN_OPTIONS") ? getenv("ASAN_OPTIONS") : "detect_leaks=0"; a += ":symbolize=0";
-		setenv("ASAN_OPTIONS", a.c_str(), 1);
 		execv("/proc/self/exe", argv);
 	}
 	std::string part = R.args.get("part", "");
